@@ -665,3 +665,82 @@ def check_parser_trim_threading(prog: Program, res: Result, rule: str) -> None:
         res.ok(rule, f"{parser.file}:{pa.node.lineno} Parser", what, "declared difference only")
     else:
         res.fail(rule, file=parser.file, line=pb.node.lineno, qualname="Parser.parse_block", construct=f"initial left_trim parse={ia} parse_block={ib}", message="the first text of a block does not take its left trim from the tag that opened the block", what=what)
+
+
+def check_render_for_item_isolation(prog: Program, res: Result, rule: str) -> None:
+    """`render … for`: the isolated context is re-created for every item (C07.R8 = C01.R14)."""
+    from sa.report import AnalysisError
+    from sa.srcmodel import root_name
+
+    rn = prog.cls("liquid2.builtin.tags.render_tag.RenderNode")
+    n_loop_renders = 0
+    for nm in ("render_to_output", "render_to_output_async"):
+        m = rn.methods.get(nm)
+        if m is None:
+            raise AnalysisError(f"RenderNode.{nm} vanished")
+        for loop in [x for x in ast.walk(m.node) if isinstance(x, (ast.For, ast.AsyncFor, ast.While))]:
+            calls = [c for c in ast.walk(loop) if isinstance(c, ast.Call) and isinstance(c.func, ast.Attribute) and c.func.attr in ("render_with_context", "render_with_context_async")]
+            for c in calls:
+                n_loop_renders += 1
+                ctx_arg = c.args[0] if c.args else None
+                what = f"RenderNode.{nm}: `{norm(c, 60)}` in the item loop renders with a context created in that iteration"
+                fresh = False
+                if isinstance(ctx_arg, ast.Name):
+                    # last statement-level assignment to the name that precedes the call inside the loop body
+                    for st in loop.body:
+                        if st.lineno > c.lineno:
+                            break
+                        if isinstance(st, ast.Assign) and any(isinstance(t, ast.Name) and t.id == ctx_arg.id for t in st.targets):
+                            v = st.value
+                            fresh = isinstance(v, ast.Call) and isinstance(v.func, ast.Attribute) and v.func.attr == "copy" and root_name(v.func.value) == "context"
+                elif isinstance(ctx_arg, ast.Call) and isinstance(ctx_arg.func, ast.Attribute) and ctx_arg.func.attr == "copy":
+                    fresh = True
+                if fresh:
+                    res.ok(rule, f"{m.file}:{c.lineno} RenderNode.{nm}", what, "context.copy(...) at the top level of the loop body")
+                else:
+                    res.fail(rule, file=m.file, line=c.lineno, qualname=f"RenderNode.{nm}", construct=f"{nm}: item loop reuses `{norm(ctx_arg) if ctx_arg is not None else '?'}`", message=f"the item loop of `render … for` renders every item with the same copied context `{norm(ctx_arg) if ctx_arg is not None else '?'}`: locals, counters and macros the partial creates for one item are visible to the next", what=what)
+    res.floor(rule, "render_with_context calls inside item loops", n_loop_renders, 2)
+
+
+def check_uptodate_is_bool(prog: Program, res: Result, rule: str) -> None:
+    """Template.is_up_to_date treats anything but a real bool from uptodate() as stale (C14.R3 = C09.R11): the coroutine of an async uptodate called from the sync path is truthy."""
+    from sa.report import AnalysisError
+    from sa.util import guarded_by_test
+
+    # Template.is_up_to_date: anything but a real bool from uptodate() counts as stale (an async uptodate called from the sync path returns a coroutine object)
+    tm = prog.cls("liquid2.template.Template").methods.get("is_up_to_date")
+    if tm is None:
+        raise AnalysisError("Template.is_up_to_date vanished")
+    tcfg = CFG(tm.node)
+    what = "Template.is_up_to_date returns the uptodate() result only after checking it is a bool; otherwise stale"
+    rets = [n for n in tcfg.nodes if n.kind == "stmt" and isinstance(n.node, ast.Return) and isinstance(n.node.value, ast.Name)]
+
+    ok = bool(rets)
+    for r in rets:
+        v = r.node.value.id
+        g = guarded_by_test(tcfg, r, lambda e, v=v: (True if norm(e) == f"not isinstance({v}, bool)" else (False if norm(e) == f"isinstance({v}, bool)" else None)))
+        if g is None:
+            ok = False
+    if any(isinstance(n.node, ast.Return) and isinstance(n.node.value, ast.Call) and norm(n.node.value.func) in ("bool",) for n in tcfg.nodes if n.kind == "stmt"):
+        ok = False
+    if ok:
+        res.ok(rule, f"{tm.file}:{tm.node.lineno} Template.is_up_to_date", what, "isinstance(_, bool) guard dominates the return")
+    else:
+        res.fail(rule, file=tm.file, line=tm.node.lineno, qualname="Template.is_up_to_date", construct="is_up_to_date returns a non-bool-checked value", message="a non-bool uptodate() result (e.g. the coroutine of an async uptodate called from the sync path) is treated as fresh: a template loaded asynchronously is never reloaded by the sync path", what=what)
+
+
+def check_globals_merged(prog: Program, res: Result, rule: str) -> None:
+    """Environment.from_string / get_template[_async] hand the loader self.make_globals(globals): the environment globals are part of the data of every template, cached or not (C10.R2 = C16.R11)."""
+    from sa.report import AnalysisError
+
+    env = prog.cls("liquid2.environment.Environment")
+    # from_string / get_template route globals through make_globals; Template.__init__ stores them
+    for name in ("from_string", "get_template", "get_template_async"):
+        m = env.methods.get(name)
+        if m is None:
+            raise AnalysisError(f"Environment.{name} vanished")
+        what = f"Environment.{name} passes self.make_globals(globals)"
+        if "self.make_globals(globals)" in norm(m.node, 5000):
+            res.ok(rule, f"{m.file}:{m.node.lineno} Environment.{name}", what, "globals merged with environment globals")
+        else:
+            res.fail(rule, file=m.file, line=m.node.lineno, qualname=f"Environment.{name}", construct=f"{name} does not call make_globals", message="template globals bypass the environment-globals merge", what=what)
